@@ -82,6 +82,25 @@ def check_case(case, ctx):
             except Exception as e:  # noqa: BLE001
                 ctx.violation("from_path.same", f"from_path() on a file holding an accepted profile raised {type(e).__name__}: {str(e)[:200]}", case)
                 return
+            # the command line tool is a third reader of the same file: `c2profile-dump -t c2profile FILE`
+            import contextlib
+            import io as _io
+            import sys as _sys
+
+            argv, buf = _sys.argv, _io.StringIO()
+            _sys.argv = ["c2profile-dump", "-t", "c2profile", tmp]
+            try:
+                with contextlib.redirect_stdout(buf):
+                    rc = c2profile.main()
+            except SystemExit as e:
+                rc = e.code
+            except Exception as e:  # noqa: BLE001
+                rc = f"{type(e).__name__}: {e}"
+            finally:
+                _sys.argv = argv
+            if rc not in (0, None) or PR.tokenize(buf.getvalue()) != src_tokens:
+                ctx.violation("from_path.same", f"c2profile-dump -t c2profile prints other tokens than the file holds (exit {rc!r}; string literals altered?)", case)
+                return
         finally:
             os.unlink(tmp)
         if via.tree != prof.tree or PR.tokenize(via.as_text()) != src_tokens:
